@@ -290,7 +290,9 @@ func init() {
 			{Name: "parallel", Race: true, Run: codecParallel("fasta")},
 			{Name: "histories", Run: codecHistories("fasta")},
 			{Name: "readerzoo", TShards: 4, Run: zooUnit("fasta")},
+			{Name: "exactsizes", QShards: 2, TShards: 4, Run: exactSizeUnit("fasta")},
 			{Name: "gigantic", Run: c01Gigantic},
+			{Name: "namesbyseq", QShards: 2, TShards: 4, Run: c01NamesBySeq},
 			firstCallUnit(firstCodec("fasta")),
 		},
 	})
@@ -481,5 +483,40 @@ func c01Gigantic(c *Ctx) {
 			k.Evals(2)
 			k.Nontrivial([]byte(fmt.Sprint("gigantic", l)))
 		})
+	}
+}
+
+// c01NamesBySeq: sequences longer than any buffer (33 000 … 70 001 bases;
+// thorough 140 000) under a name of EVERY length 0..200 (thorough 0..600) — the
+// two-dimensional sweep: the length sweeps elsewhere vary one field while the
+// other stays short.
+func c01NamesBySeq(c *Ctx) {
+	seqLens := []int{33000, 40000, 70001}
+	maxName := 200
+	if c.Thorough {
+		seqLens = append(seqLens, 140000)
+		maxName = 600
+	}
+	idx := int64(0)
+	for _, sl := range seqLens {
+		for nl := 0; nl <= maxName; nl++ {
+			c.Case(idx, func(k *K) {
+				r := k.Rand()
+				rec := &fasta.Fasta{Name: randSeq(r, []byte("abcXYZ019 |._"), nl), Sequence: randSeq(r, []byte("ACGTN"), sl)}
+				recs := []*fasta.Fasta{rec, {Name: []byte("next"), Sequence: []byte("ACGT")}}
+				k.Input("name_length", nl)
+				k.Input("sequence_length", sl)
+				text := fastaWrite(k, recs)
+				if k.Failed() {
+					return
+				}
+				fastaDecodeCompare(k, "written text", recs, text)
+				k.Count("records_roundtripped", 2)
+				k.Count("long_records_by_name_length", 1)
+				k.Evals(1)
+				k.Nontrivial([]byte(fmt.Sprint("namesbyseq", nl, sl)))
+			})
+			idx++
+		}
 	}
 }
